@@ -2,8 +2,12 @@
 package main
 
 import (
+	"context"
 	"fmt"
 	"time"
+
+	el "github.com/hashicorp/eventlogger"
+	"verif/vrt"
 
 	"verif/hk"
 	"verif/hn"
@@ -34,7 +38,7 @@ func alphabet(c hn.GateCfg) []string {
 		for _, id := range c.IDs {
 			a = append(a, "ev "+id+" flush")
 		}
-		a = append(a, "nongate")
+		a = append(a, "nongate", "evx a")
 	}
 	return append(a, "tick", "expire", "flushall", "close")
 }
@@ -55,7 +59,104 @@ var harness = &seqmc.Harness{
 	New: func(tier string, cfg int) seqmc.Instance { return hn.NewGateInst(cfgs()[cfg], true) },
 }
 
+// ---- concurrent part: two senders and a moving clock ---------------------------------
+
+type conc struct {
+	Name   string
+	Broker bool
+	Bound  int
+}
+
+func concScenarios(tier string) []conc {
+	b := 3
+	if tier == "thorough" {
+		b = 4
+	}
+	out := []conc{{Broker: true, Bound: b}, {Broker: false, Bound: b}}
+	for i := range out {
+		out[i].Name = fmt.Sprintf("concurrent: Process(a) || Process(b) || clock +600ms, then Process(c) at +1.3s (Broker=%v)", out[i].Broker)
+	}
+	return out
+}
+
+type clockStep struct{ c *hn.Clock }
+
+//go:norace
+func (s clockStep) advance(d time.Duration) { s.c.Advance(d) }
+
+func concBody(c conc) func() string {
+	return func() string {
+		g := hn.NewGateInst(hn.GateCfg{Broker: c.Broker, IDs: []string{"a", "b", "c"}}, true)
+		ctx := context.Background()
+		start := g.Clk.Now()
+		mk := func(id string, seq int) *el.Event {
+			return &el.Event{Type: "t", Payload: &hn.GP{ID: id, Seq: seq, Rec: g.Rec}}
+		}
+		ea, eb := mk("a", 1), mk("b", 2)
+		vrt.GoNamed("senderA", func() {
+			if _, err := g.F.Process(ctx, ea); err != nil {
+				vrt.Fail("Process(a): %v", err)
+			}
+		})
+		vrt.GoNamed("senderB", func() {
+			if _, err := g.F.Process(ctx, eb); err != nil {
+				vrt.Fail("Process(b): %v", err)
+			}
+		})
+		vrt.GoNamed("clock", func() { clockStep{g.Clk}.advance(600 * time.Millisecond) })
+		vrt.Join()
+		// move to start+1.3s: a group opened at +0 has expired (Expiration 1s), one opened at +0.6s has not
+		now := g.Clk.Now()
+		clockStep{g.Clk}.advance(start.Add(1300 * time.Millisecond).Sub(now))
+		T := g.Clk.Now()
+		if _, err := g.F.Process(ctx, mk("c", 3)); err != nil {
+			vrt.Fail("Process(c): %v", err)
+		}
+		exps, ok := hn.PrivateExpiries(g.F)
+		if !ok {
+			return "private layout unknown: white-box invariant skipped"
+		}
+		sig := ""
+		for id, exp := range exps {
+			if exp.Before(T) {
+				vrt.Fail("after a successful Process at T=start+%v the group of id %q, whose expiry start+%v lies before T, is still gated (groups: %v)", T.Sub(start), id, exp.Sub(start), exps)
+			}
+			sig += fmt.Sprintf("%s@%v ", id, exp.Sub(start).Round(100*time.Millisecond))
+		}
+		return sig
+	}
+}
+
 func main() {
+	seqCheck := seqmc.Check(harness, "", nil, 0, 0)
+	nSeq := len(cfgs())
+	hk.Main(&hk.Check{
+		ID: prop,
+		Scenarios: func(tier string) []string {
+			n := seqCheck.Scenarios(tier)
+			for _, c := range concScenarios(tier) {
+				n = append(n, c.Name)
+			}
+			return n
+		},
+		SplitScenario: func(tier string, scn int) bool { return scn >= nSeq },
+		RunJob: func(tier string, job hk.Job, deadline time.Time) *hk.Result {
+			if job.Scn < nSeq {
+				return seqmc.RunJob(harness, tier, job, deadline)
+			}
+			c := concScenarios(tier)[job.Scn-nSeq]
+			ex := &vrt.Explorer{Bound: c.Bound, Body: concBody(c)}
+			return hk.ExploreJob(prop, job, deadline, ex, c.Name)
+		},
+		Rule:        seqRule + " Concurrent part: two senders racing with a clock step, every schedule within the preemption bound; then a Process at a time between the two possible expiries: no held group's expiry (read from the filter's private state) may lie before that time.",
+		Assumptions: []string{"the clock is the filter's NowFunc, owned by the harness", "depth 6 (quick) / 8 (thorough)", "the concurrent scenario reads gatedEvent.exp by reflection; if the private layout changes it is skipped, not failed"},
+		QuickBudget: 150 * time.Second, ThoroughBudget: 45 * time.Minute,
+	})
+}
+
+const seqRule = "BFS over all histories up to the depth bound of {event(id), flush event, event with an already cancelled context, clock +1ms, clock +Expiration+1ms, FlushAll, Close} on the real gated.Filter with 3 ids (full alphabet) and 5 ids (0..5 groups open at once), Broker set / nil. After every successful Process at virtual time T a probe on a replayed copy must find no group whose expiry lies before T, the expired groups must have reached the Sender oldest first (or been dropped with no Broker); after a successful FlushAll / Close the probe must find nothing and every previously held group must have been emitted exactly once."
+
+func unusedMain() {
 	hk.Main(seqmc.Check(harness,
 		"BFS over all histories up to the depth bound of {event(id), flush event, clock +1ms, clock +Expiration+1ms, FlushAll, Close} on the real gated.Filter with 3 ids (full alphabet) and 5 ids (0..5 groups open at once), Broker set / nil. After every successful Process at virtual time T a probe on a replayed copy must find no group whose expiry lies before T, the expired groups must have reached the Sender oldest first (or been dropped with no Broker); after a successful FlushAll / Close the probe must find nothing and every previously held group must have been emitted exactly once.",
 		[]string{"the clock is the filter's NowFunc, owned by the harness", "depth 6 (quick) / 8 (thorough)"},
